@@ -24,7 +24,8 @@
    operations._format_result_details               | format_result_details impl
    operations._log_match_result (+ log_check)      | log_match_result
    operations.check_that/require_that/assert_that  | check_that / require_that / assert_that : list check * outcome
-   Not modelled: match_pattern, is_text, is_json, is_float, has_entry with a custom EntryMatcher, check_that_in & co.
+   check_that_in / require_that_in / assert_that_in are in Model/OpsIn.v.
+   Not modelled: match_pattern, is_text, is_json, is_float, has_entry with a custom EntryMatcher.
    No proofs in this file. *)
 From Coq Require Import List Bool NArith ZArith.
 Import ListNotations.
